@@ -191,6 +191,20 @@ def gen_big(rng):
                 placements=pl, kind="valid", style="big")
 
 
+def gen_long(rng):
+    """One request that has to step over more than a thousand interleaved reservations (every other unit of a
+    long range is reserved), some global, some per-chip, listed in a shuffled order: the retry loop runs once per
+    reservation it has to skip."""
+    n = rng.choice([1100, 1500])
+    cons = [["reserve", 0, 2 * i + 1, 2 * i + 2, rng.choice([None, [0, 0]])] for i in range(n)]
+    if rng.random() < 0.5:
+        rng.shuffle(cons)
+    cap = 2 * n + rng.choice([1, 2, 3, 6])
+    vres = [[1, [[0, 1]]], [2, [[0, 2]]], [3, [[0, rng.choice([0, 1, 2])]]]]
+    return dict(machine=dict(w=1, h=1, res=[[0, cap]], exc=[], dead=[]), vres=vres, constraints=cons,
+                placements=[[v, [0, 0]] for v, _ in vres], kind="valid", style="long-scan")
+
+
 def gen_entry(rng):
     """The same allocator reached another way: a Machine whose per-chip resources were set by a history of
     `machine[xy] = resources` assignments, the deprecated wrapper() (which appends the monitor reservation and
@@ -426,10 +440,15 @@ def run(chk, args):
                  else gen_nullres(chk.rng) if i % 8 == 4
                  else gen_big(chk.rng) if i % 16 == 6
                  else gen_entry(chk.rng) if i % 8 == 3
+                 else gen_long(chk.rng) if i % 256 == 0
                  else gen_case(chk.rng, malformed=(i % 8 == 7)) for i in range(n)]
     for i, c in enumerate(cases):
         if i % 3 == 0 and "subclass" not in c:
             c["subclass"] = True          # constraints handed over as instances of user-defined subclasses
+        if i % 5 in (1, 2) and "reskind" not in c and "entry" not in c:
+            # resource identifiers that are EQUAL but not IDENTICAL at every mention (run-time built strings, tuples,
+            # integers beyond the small-int cache): the allocator must compare them by equality
+            c["reskind"] = ["str", "tuple", "bigint"][(i // 5) % 3]
     corpus = lib.os.path.join(lib.VERIF, "corpus", "C05.json")
     if lib.os.path.exists(corpus):
         cases = json.load(open(corpus)) + cases
@@ -442,6 +461,7 @@ def run(chk, args):
         chk.count("kind:" + c["kind"])
         chk.count("style:" + c.get("style", "?"))
         chk.count("constraint-subclass-instances:" + str(bool(c.get("subclass"))))
+        chk.count("resource-identifiers:" + str(c.get("reskind", "small-int")))
         chk.count("outcome:" + o[0])
         chk.note_case(c, nontrivial(c, o))
         why = oracle(c, o)
